@@ -341,7 +341,8 @@ def judge(chk, adv, mark, wire_before, own, label, seqnames, state):
         if sorted(succ) != list(range(1, len(own) + 1)):
             bad.append(('C17:own-transfer-affected-by-%s' % seqnames[0], 'own transfer did not complete after the peer sent %s in state %s (success for %s)' % (seqnames, state, succ)))
     if own and len(own) > 1 and 'refuse_own' in seqnames and not x.closed() and not any(
-            n in ('sess_term', 'sess_term_reply', 'sess_init_again') for n in seqnames):
+            n in ('sess_term', 'sess_term_reply', 'sess_init_again', 'refuse_second') for n in seqnames):
+        # (a sequence which also refuses transfer 2 itself says nothing about the isolation of transfer 2)
         succ = [int(tm.arg(a[0])) for (_i, _n, a) in tm.signals(sim, x.name, 'send_bundle_finished') if tm.arg(a[2]) == 'success']
         if 2 not in succ:
             bad.append(('C17:other-transfer-affected-by-refuse', 'the peer refused transfer 1; transfer 2 (in progress) did not complete (success for %s)' % succ))
